@@ -1,5 +1,6 @@
 """C11 implementation side: load a (rule set, filter set) with the real SigmaCollection, once without
 applying the filters (source meaning) and once with, under a recorded / forced random.choices."""
+from impl.excname import exc_name
 import copy
 import random
 
@@ -49,9 +50,9 @@ def cond_tree(cond):
     try:
         return {"tree": enc_tree(cond.parsed)}
     except SigmaError as e:
-        return {"err": type(e).__name__, "sigma": True}
+        return {"err": exc_name(e), "sigma": True}
     except Exception as e:  # noqa
-        return {"err": type(e).__name__, "sigma": False}
+        return {"err": exc_name(e), "sigma": False}
 
 
 def det_id(detection):
